@@ -36,8 +36,10 @@ def n_elements():
     return len(load()["elements"])
 
 
-def window(start, size):
-    """Graph model (as vf.gen_graph produces) of chain elements [a, b] with both ends scaffold nodes."""
+def window(start, size, seq_seed=None, max_total=150000):
+    """Graph model (as vf.gen_graph produces) of chain elements [a, b] with both ends scaffold nodes.
+    With seq_seed the segments get synthetic sequences of their real lengths (the shipped graph has none); the window is
+    then shrunk until its total length is at most max_total."""
     g = load()
     els = g["elements"]
     a = max(0, min(start, len(els) - 1))
@@ -46,14 +48,33 @@ def window(start, size):
     b = min(a + max(size, 2), len(els) - 1)
     while b > a and els[b][0] != "s":
         b -= 1
-    ids = []
-    for kind, val in els[a : b + 1]:
-        ids += [val] if kind == "s" else list(val)
+    import random
+
+    while True:
+        ids = []
+        for kind, val in els[a : b + 1]:
+            ids += [val] if kind == "s" else list(val)
+        if seq_seed is None or sum(g["nodes"][n]["ln"] for n in ids) <= max_total or b - a <= 2:
+            break
+        b -= 1
+        while b > a and els[b][0] != "s":
+            b -= 1
     idset = set(ids)
+    rnd = random.Random(seq_seed)
     nodes = {}
     for n in ids:
         d = g["nodes"][n]
-        nodes[n] = {"seq": "*", "ln": d["ln"], "sn": d["sn"], "so": d["so"], "sr": d["sr"]}
+        seq = "*"
+        if seq_seed is not None:
+            seq = "".join(rnd.choices("ACGT", k=min(d["ln"], max_total)))
+        nodes[n] = {"seq": seq, "ln": len(seq) if seq_seed is not None else d["ln"], "sn": d["sn"], "so": d["so"], "sr": d["sr"]}
+    if seq_seed is not None:
+        # conversion needs rank-0 contigs tiled from 0: re-base the reference offsets of the window
+        ref = sorted((d["so"], n) for n, d in nodes.items() if d["sr"] == 0)
+        pos = 0
+        for _, n in ref:
+            nodes[n]["so"] = pos
+            pos += nodes[n]["ln"]
     seen = set()
     links = []
     for n in ids:
